@@ -93,6 +93,26 @@ def classify(callable_):
     return False, label
 
 
+_NEXT = {}
+
+
+def _next_offset(code, lasti):
+    """Offset of the instruction that follows the call instruction containing `lasti`
+    (f_lasti may point at the CALL or into its inline cache entries)."""
+    import dis
+    offs = _NEXT.get(code)
+    if offs is None:
+        offs = [i.offset for i in dis.get_instructions(code)]
+        _NEXT[code] = offs
+    j = 0
+    for idx, o in enumerate(offs):
+        if o <= lasti:
+            j = idx
+        else:
+            break
+    return offs[j + 1] if j + 1 < len(offs) else -1
+
+
 def _depth(f):
     n = 0
     while f is not None:
@@ -110,14 +130,17 @@ def code_key(code):
 
 class Fault(object):
     """What to raise, and where."""
-    __slots__ = ('k', 'exc_name', 'identity', 'occ', 'seen')
+    __slots__ = ('k', 'exc_name', 'identity', 'occ', 'seen', 'when')
 
-    def __init__(self, k, exc_name, identity=None, occ=None):
+    def __init__(self, k, exc_name, identity=None, occ=None, when='entry'):
         self.k = k                    # event index (sweeps), verified against identity
         self.exc_name = exc_name
         self.identity = tuple(identity) if identity is not None else None
         self.occ = occ                # replay addressing: the occ-th event with this identity
         self.seen = 0
+        # 'entry': the collaborator fails before doing anything; 'return': it completes its
+        # effect (file written, dump created ...) and the failure surfaces as it returns
+        self.when = when
 
 
 def make_exception(name):
@@ -168,6 +191,8 @@ class Monitor(object):
         self.diverged = None
         self.active = False
         self.at_depth = {}        # caller depth -> (event idx, caller code, caller f_lasti)
+        self.pending = None       # an armed fail-on-return fault
+        self.not_delivered = 0    # return-faults whose call raised by itself (nothing to add)
 
     def _tv(self):
         g = os.environ.get
@@ -204,11 +229,47 @@ class Monitor(object):
                 self.fault = None
                 self.queue = []
                 return
+            if f.when == 'return':
+                # arm: raise when this frame executes its next instruction after the call
+                self.fault = None
+                self.pending = dict(frame=caller_frame, code=code, next=_next_offset(code, caller_frame.f_lasti),
+                                    fault=f, ev=ev)
+                mon.set_local_events(TOOL, code, EV.INSTRUCTION)
+                return
             if self.fired is None:
                 self.fired = ev
             self.fired_all.append(ev)
             self.fault = self.queue.pop(0) if self.queue else None
             raise make_exception(f.exc_name)
+
+    def on_instruction(self, code, off):
+        p = self.pending
+        if p is None or not self.active or code is not p['code']:
+            return None
+        if sys._getframe(1) is not p['frame']:
+            return None
+        self.pending = None
+        mon.set_local_events(TOOL, code, 0)
+        if off != p['next']:
+            # the call did not return normally (it raised and a handler of this frame runs)
+            self.not_delivered += 1
+            self.fault = self.queue.pop(0) if self.queue else None
+            return None
+        if self.fired is None:
+            self.fired = p['ev']
+        self.fired_all.append(p['ev'])
+        self.fault = self.queue.pop(0) if self.queue else None
+        raise make_exception(p['fault'].exc_name)
+
+    def disarm(self):
+        p = self.pending
+        if p is not None:
+            self.pending = None
+            self.not_delivered += 1
+            try:
+                mon.set_local_events(TOOL, p['code'], 0)
+            except ValueError:
+                pass
 
     def on_call(self, code, off, callable_, arg0):
         if not self.active:
@@ -294,6 +355,7 @@ def run_monitored(fn, touched, fault=None, keep_events=True):
     m = Monitor(touched, fault=fault, keep_events=keep_events)
     mon.register_callback(TOOL, EV.CALL, m.on_call)
     mon.register_callback(TOOL, EV.PY_START, m.on_start)
+    mon.register_callback(TOOL, EV.INSTRUCTION, m.on_instruction)
     mon.restart_events()
     mon.set_events(TOOL, EV.CALL | EV.PY_START)
     outcome = ('returned', None)
@@ -307,9 +369,11 @@ def run_monitored(fn, touched, fault=None, keep_events=True):
     finally:
         m.active = False
         after = dict(os.environ)
+        m.disarm()
         mon.set_events(TOOL, 0)
         mon.register_callback(TOOL, EV.CALL, None)
         mon.register_callback(TOOL, EV.PY_START, None)
+        mon.register_callback(TOOL, EV.INSTRUCTION, None)
     return m, outcome, before, after
 
 
@@ -325,7 +389,7 @@ def run_plain(fn):
     return outcome, before, after
 
 
-def admissible_limit(m):
+def admissibility(m):
     """Rule 1 of DESIGN.md 5.4.  Index r such that only events < r may be fault
     points.  Restoration begins at the earliest of
     (a) the first *second* mutation of a touched variable: r = its outermost
@@ -336,6 +400,7 @@ def admissible_limit(m):
         outermost in-progress call made by that frame or below, or the event count."""
     first = {}
     r = m.n
+    open_at_r = ()
     for mu in m.mutations:
         if mu.get('cleanup') is not None:
             c = mu['cleanup']
@@ -346,23 +411,31 @@ def admissible_limit(m):
                 if ronly:
                     cand = min(cand, min(ronly))
             r = min(r, cand)
+            open_at_r = tuple(mu['enclosing'])
             break
         if mu['key'] in first:
             at_perturb = min(first.values())
             ronly = [a for a in mu['enclosing'] if a >= at_perturb]
             r = min(r, min(ronly) if ronly else mu['at'])
+            open_at_r = tuple(mu['enclosing'])
             break
         first[mu['key']] = mu['at']
-    return r
+    return r, frozenset(open_at_r)
+
+
+def admissible_limit(m):
+    """r only (see admissibility)."""
+    return admissibility(m)[0]
 
 
 def other_windows(m):
     """Environment variables other than the designated ones that the code under test
     mutates (a stage that sets and later restores, say, a thread-count variable).
-    -> (blocked, windows): `blocked` = [(lo, hi)) event index ranges that are the
+    -> (blocked, windows, open_calls): `blocked` = [(lo, hi)) event index ranges that are the
     restoration mechanism of such a variable (never fault points); `windows` =
     [(lo, hi, key)] ranges in which that variable is perturbed (preferred fault points)."""
     blocked, windows = [], []
+    open_calls = set()
     by_key = {}
     for mu in m.other_mutations:
         by_key.setdefault(mu['key'], []).append(mu)
@@ -379,12 +452,13 @@ def other_windows(m):
                 lo_candidates += [x for x in mu['enclosing'] if x >= a]
             lo = min(lo_candidates)
             blocked.append((lo, mu['at']))
+            open_calls.update(mu['enclosing'])
             if a is not None:
                 windows.append((a, lo, key))
             a = None if mu['op'] == 'set' or mu['op'] == 'del' else a
         if a is not None:
             windows.append((a, m.n, key))
-    return blocked, windows
+    return blocked, windows, frozenset(open_calls)
 
 
 def l1_codes(m, entry_keys):
